@@ -33,10 +33,23 @@ type SyncSpec struct {
 	Faults   []string `json:"faults"` // fault per connection attempt to lookupd 1 (then "ok"): ok | refuse | close | stall | garbage | neglen | minlen | overlimit | hugelen | trunc | einvalid | restart
 	Ops      []string `json:"ops"`    // churn: mk:T | mkch:T:C | rmch:T:C | rm:T | pub:T | mkeph | tick | cfg:<digits of the lookupds to configure, "-" for none>
 	PreKnown bool     `json:"preknown"` // lookupd already knows channel "pre" of topic "fresh" (from another nsqd)
+	// HTTPFault: how the LAST lookupd answers nsqd's HTTP /channels query: "" (healthy) |
+	// refuse | 500 | garbage | empty. Its TCP side stays healthy.
+	HTTPFault string `json:"httpfault,omitempty"`
+	// Explore: the churn operations run inside the exploration window (E2: the schedules of
+	// the notification path - Notify goroutines, notifyChan, lookupLoop - are enumerated)
+	Explore bool `json:"explore,omitempty"`
 }
 
 func (s SyncSpec) String() string {
-	return fmt.Sprintf("lookupds=%d faults=%v ops=%v preknown=%v", s.Lookupds, s.Faults, s.Ops, s.PreKnown)
+	x := ""
+	if s.HTTPFault != "" {
+		x = " httpfault=" + s.HTTPFault
+	}
+	if s.Explore {
+		x += " explore"
+	}
+	return fmt.Sprintf("lookupds=%d faults=%v ops=%v preknown=%v%s", s.Lookupds, s.Faults, s.Ops, s.PreKnown, x)
 }
 
 type memTransport struct{ routes map[string]http.Handler }
@@ -206,6 +219,20 @@ func RunSync(spec SyncSpec) vx.Out {
 	defer w.Release()
 	w.N.ci = clusterinfo.New(w.N.logf, http_api.NewClientWithTransport(tr))
 	w.Quiesce()
+	if spec.HTTPFault != "" {
+		last := len(lks) - 1
+		key := fmt.Sprintf("lk%d:%d", last+1, lks[last].HTTPPort())
+		switch spec.HTTPFault {
+		case "refuse":
+			delete(tr.routes, key)
+		case "500":
+			tr.routes[key] = http.HandlerFunc(func(rw http.ResponseWriter, r *http.Request) { http.Error(rw, "boom", 500) })
+		case "garbage":
+			tr.routes[key] = http.HandlerFunc(func(rw http.ResponseWriter, r *http.Request) { rw.Write([]byte("{\"channels\": [1, {")) })
+		case "empty":
+			tr.routes[key] = http.HandlerFunc(func(rw http.ResponseWriter, r *http.Request) {})
+		}
+	}
 	if spec.PreKnown {
 		for _, l := range lks {
 			l.Do("POST", "/channel/create?topic=fresh&channel=pre")
@@ -246,6 +273,9 @@ func RunSync(spec SyncSpec) vx.Out {
 	for i := range lks {
 		configured[i] = true
 	}
+	if spec.Explore {
+		vrt.Window(true)
+	}
 	for _, op := range spec.Ops {
 		p := strings.Split(op, ":")
 		switch p[0] {
@@ -266,7 +296,7 @@ func RunSync(spec SyncSpec) vx.Out {
 				bad("C16 nsqd stopped accepting publishes", "first publish to %s: %d", p[1], code)
 			}
 			w.Quiesce()
-			if spec.PreKnown && p[1] == "fresh" && attemptAllOK(spec) && !freshDone {
+			if spec.PreKnown && p[1] == "fresh" && attemptAllOK(spec) && !freshDone && (spec.HTTPFault == "" || len(lks) > 1) {
 				freshDone = true
 				ch := w.Channel("fresh", "pre")
 				if ch == nil {
@@ -298,9 +328,18 @@ func RunSync(spec SyncSpec) vx.Out {
 				bad("C16 runtime reconfiguration of the lookupd list refused", "%s: %d", body, code)
 			}
 		}
-		w.Quiesce()
-		alive("after " + op)
+		if !spec.Explore {
+			// (explored: the next operation is issued while the notifications of this one
+			// are still on their way)
+			w.Quiesce()
+			alive("after " + op)
+		}
 		obs += op + ","
+	}
+	if spec.Explore {
+		vrt.Quiesce()
+		vrt.Window(false)
+		alive("after the explored operations")
 	}
 	// faults are over: within 4 heartbeat intervals every lookupd lists exactly what nsqd has
 	w.SleepAlive(62*time.Second, cons)
